@@ -16,7 +16,8 @@ EXTENDS AbiGen
 
 CONSTANTS ArgCounts,     \* set of argument counts
           SingleCounts,  \* argument counts of the lists with one special value
-          RotStep        \* rotations of the kind table: offsets 0, RotStep, ...
+          RotStep,       \* rotations of the kind table: offsets 0, RotStep, ...
+          HistSites      \* numbers of insertion sites of the history cases ({} = none)
 
 (***************************************************************************)
 (* Argument values.  b: little-endian bytes of the machine word, sg: the   *)
@@ -79,6 +80,42 @@ RotList(abi, n, o) ==
   LET K == RotKinds(abi) IN [i \in 1..n |-> KindArg(abi, K[((i - 1 + o) % Len(K)) + 1], i)]
 SingleList(abi, n, name, p) ==
   [i \in 1..n |-> IF i = p THEN KindArg(abi, name, i) ELSE KindArg(abi, "small", i)]
+
+(***************************************************************************)
+(* Histories: ONE CallPatch object is used at several insertion sites.     *)
+(* A site is an InsertionContext (block, offset); blocks blk0, blk1, ...   *)
+(* are 16 nops at 4096 + 64 * blk, each carries the symbol of that name.   *)
+(* Context dependent argument callables:                                   *)
+(*   ctxoff   lambda ctx: 512 + ctx.offset                                 *)
+(*   ctxaddr  lambda ctx: ctx.block.address                                *)
+(*   ctxsym   lambda ctx: the symbol of ctx.block                          *)
+(* The value expected at site s is f(context of s): ResolveArg.            *)
+(***************************************************************************)
+CtxArg(kind) == [k |-> kind, cb |-> TRUE, b |-> <<>>, sg |-> TRUE, s |-> ""]
+IsCtxKind(a) == a.k \in {"ctxoff", "ctxaddr", "ctxsym"}
+NopSize(abi) == IF abi = "arm64" THEN 4 ELSE 1
+Site(blk, off) == [blk |-> blk, off |-> off, addr |-> 4096 + 64 * blk,
+                   sym |-> <<"blk0", "blk1", "blk2">>[blk + 1]]
+DefaultSites == <<Site(0, 0)>>
+Word(abi, lo, hi) == IF Slot(abi) = 8 THEN <<lo, hi, Z, Z, Z, Z, Z, Z>> ELSE <<lo, hi, Z, Z>>
+ResolveArg(abi, a, site) ==
+  CASE a.k = "ctxoff" -> Cb(IntArg(Word(abi, site.off, 2), TRUE))
+    [] a.k = "ctxaddr" -> Cb(IntArg(Word(abi, site.addr % 256, site.addr \div 256), TRUE))
+    [] a.k = "ctxsym" -> Cb(SymArg(site.sym))
+    [] OTHER -> a
+\* the configuration as site number s sees it (every callable evaluated)
+At(c, s) == [c EXCEPT !.args = [i \in DOMAIN c.args |-> ResolveArg(c.abi, c.args[i], c.sites[s])]]
+
+HistKinds == <<"ctxoff", "ctxsym", "small", "ctxaddr">>
+HistList(abi, n, o) ==
+  [i \in 1..n |-> LET kd == HistKinds[((i - 1 + o) % 4) + 1]
+                 IN  IF kd = "small" THEN KindArg(abi, "small", i) ELSE CtxArg(kd)]
+\* argument lists: in registers only, and reaching onto the stack
+HistLists(abi) ==
+  {HistList(abi, n, o) : n \in {2, Len(DefaultConv(abi).regs) + 3}, o \in {0, 1, 3}}
+SiteSeqs(abi) ==
+  (IF 2 \in HistSites THEN {<<Site(0, 0), Site(1, NopSize(abi))>>} ELSE {})
+  \cup (IF 3 \in HistSites THEN {<<Site(1, 2 * NopSize(abi)), Site(0, 0), Site(2, NopSize(abi))>>} ELSE {})
 
 (***************************************************************************)
 (* Level B: CallPatch.                                                     *)
@@ -205,15 +242,15 @@ KfX64Push(c) ==
                      c.args[i].k = "int" /\ ~SImm32(c.args[i].b)
 \* KF-C17-3: x86, a symbol argument is passed as the word stored at the symbol
 \* (`mov reg, sym[rip]' / `push sym' are loads) instead of its address
-KfX86SymLoad(c, i, tok) == IsX86(c.abi) /\ c.args[i].k = "sym" /\ tok = ContentsTok(c.args[i].s)
+KfX86SymLoad(P, i, tok) == IsX86(P.abi) /\ P.exp[i].k = "addr" /\ tok = ContentsTok(P.exp[i].s)
 
 \* argument i as the callee sees it in snapshot s
 SeenArg(P, s, i) ==
   IF i <= NRegArgs(P) THEN SnapReg(s, P.conv.regs[i])
   ELSE LET A == StackArgAddr(P, s, i - NRegArgs(P))
        IN  IF A \in DOMAIN s.mem THEN s.mem[A] ELSE UnknownTok(A)
-ArgsOKModuloSymLoad(c, P, s) ==
-  \A i \in DOMAIN c.args : SeenArg(P, s, i) = P.exp[i] \/ KfX86SymLoad(c, i, SeenArg(P, s, i))
+ArgOKModuloSymLoad(P, s, i) == SeenArg(P, s, i) = P.exp[i] \/ KfX86SymLoad(P, i, SeenArg(P, s, i))
+ArgsOKModuloSymLoad(P, s) == \A i \in DOMAIN P.exp : ArgOKModuloSymLoad(P, s, i)
 
 (***************************************************************************)
 (* Configuration space.                                                    *)
@@ -259,8 +296,12 @@ Cons(abi) ==
                       <<FALSE, TRUE, TRUE, TRUE, 3, TRUE>>, <<FALSE, FALSE, FALSE, TRUE, 2, TRUE>>,
                       <<FALSE, TRUE, FALSE, FALSE, 3, FALSE>>} ELSE {})
 
+\* mode: "direct" = get_asm is called once per site on ONE CallPatch object;
+\*       "rewrite" = the ONE object is inserted at every site by a real
+\*       RewritingContext (insert_at ... apply)
 MkCall(abi, args, cv, k) ==
-  [kind |-> "c17", abi |-> abi, args |-> args, custom |-> cv.custom, cregs |-> cv.cregs,
+  [kind |-> "c17", abi |-> abi, args |-> args, sites |-> DefaultSites, mode |-> "direct",
+   custom |-> cv.custom, cregs |-> cv.cregs,
    calign |-> cv.calign, cshadow |-> cv.cshadow, ccaller |-> cv.ccaller,
    dflt |-> k[1], flags |-> k[2], align |-> k[3], pcs |-> k[4], scratch |-> k[5],
    leaf |-> k[6], clob |-> <<>>, reads |-> <<>>]
@@ -272,6 +313,18 @@ CallBase == UNION {{MkCall(abi, args, Conv(FALSE, <<>>, 16, 0, TRUE),
           \cup (IF "mips32" \in GenAbis
                 THEN {MkCall("mips32", <<>>, Conv(FALSE, <<>>, 16, 0, TRUE),
                              <<TRUE, TRUE, FALSE, TRUE, 0, TRUE>>)} ELSE {})
+          \cup UNION {{[MkCall(abi, args, Conv(FALSE, <<>>, 16, 0, TRUE),
+                               <<TRUE, TRUE, IsX86(abi), TRUE, 0, TRUE>>)
+                          EXCEPT !.sites = ss, !.mode = md] :
+                         args \in HistLists(abi), ss \in SiteSeqs(abi), md \in {"direct", "rewrite"}}
+                       : abi \in CallAbis}
+IsHist(c) == Len(c.sites) > 1
+\* conventions / constraint overrides of the history cases (possibly-leaf
+\* only: blocks outside functions are treated as leaf code by the rewriter)
+HConvs(abi) == {Conv(FALSE, <<>>, 16, 0, TRUE),
+                IF abi = "arm64" THEN Conv(TRUE, SubSeq(CustomRegs(abi), 1, 2), 16, 0, TRUE)
+                ELSE Conv(TRUE, SubSeq(CustomRegs(abi), 1, 2), 16, 0, FALSE)}
+HCons(abi) == {<<TRUE, TRUE, IsX86(abi), TRUE, 0, TRUE>>, <<FALSE, TRUE, FALSE, TRUE, 1, TRUE>>}
 
 CProgram(p) == IF p.exc # "" THEN <<>>
                ELSE p.pro \o <<E0("bodyentry")>> \o p.body \o <<E0("bodyexit")>> \o p.epi \o <<E0("end")>>
@@ -281,23 +334,28 @@ CInit ==
   /\ pred = NoPred
   /\ prog = <<>>
   /\ pc = 0
-  /\ MInit(ParamsC17(cfg, 0, TRUE, 0))
+  /\ MInit(ParamsC17(At(cfg, 1), 0, TRUE, 0))
 
 CLoad ==
   /\ pc = 0
-  /\ \E cv \in (IF cfg.abi = "mips32" THEN {Conv(FALSE, <<>>, 16, 0, TRUE)} ELSE Convs(cfg.abi)),
-        k \in (IF cfg.abi = "mips32" THEN {<<TRUE, TRUE, FALSE, TRUE, 0, TRUE>>} ELSE Cons(cfg.abi)) :
+  /\ \E cv \in (IF cfg.abi = "mips32" THEN {Conv(FALSE, <<>>, 16, 0, TRUE)}
+                 ELSE IF IsHist(cfg) THEN HConvs(cfg.abi) ELSE Convs(cfg.abi)),
+        k \in (IF cfg.abi = "mips32" THEN {<<TRUE, TRUE, FALSE, TRUE, 0, TRUE>>}
+               ELSE IF IsHist(cfg) THEN HCons(cfg.abi) ELSE Cons(cfg.abi)),
+        s \in DOMAIN cfg.sites :
         \* (without align_stack only the aligned start is in the domain of the
         \* alignment clause and everything else is translation invariant)
         \E a \in RelevantAligns(cfg.abi, k[3]) :
-        \E c \in {MkCall(cfg.abi, cfg.args, cv, k)} :
-        \E p \in {CallPredict(c)} :
+        \E c \in {[MkCall(cfg.abi, cfg.args, cv, k) EXCEPT !.sites = cfg.sites, !.mode = cfg.mode]} :
+        \E r \in {At(c, s)} :                 \* Level B is stateless: site s alone
+        \E p \in {CallPredict(r)} :
             /\ cfg' = c
-            /\ pred' = Meta(p)
+            /\ pred' = [exc |-> p.exc, scratch |-> p.scratch, site |-> s]
             /\ prog' = CProgram(p)
             /\ pc' = 1
-            /\ MLoad(ParamsC17(c, a, p.adjknown, p.adj))
-            /\ (Emit /\ \A b \in RelevantAligns(c.abi, c.align) : a <= b) => PrintT("CASE " \o ToJson(c))
+            /\ MLoad(ParamsC17(r, a, p.adjknown, p.adj))
+            /\ (Emit /\ s = 1 /\ \A b \in RelevantAligns(c.abi, c.align) : a <= b)
+                 => PrintT("CASE " \o ToJson(c))
 
 CNext == CLoad \/ Step
 CSpec == CInit /\ [][CNext]_vars
@@ -309,11 +367,11 @@ CInv_TypeOK == MTypeOK
 CInv_Refusal ==
   (pc > 0 /\ pred.exc # "") =>
      \/ LegitRefusalC17(cfg, pred.exc)
-     \/ pred.exc = "AsmSyntaxError" /\ Ex(KfX64Push(cfg))
+     \/ pred.exc = "AsmSyntaxError" /\ Ex(KfX64Push(At(cfg, pred.site)))
 CInv_ArgsAtCall ==
   \A k \in DOMAIN aux.calls :
      IF Strict THEN ArgRegsOK(par, aux.calls[k]) /\ StackArgsOK(par, aux.calls[k])
-     ELSE ArgsOKModuloSymLoad(cfg, par, aux.calls[k])
+     ELSE ArgsOKModuloSymLoad(par, aux.calls[k])
 CInv_ShadowReserved == \A k \in DOMAIN aux.calls : ShadowReserved(par, St, aux.calls[k])
 CInv_AlignedAtCall == \A k \in DOMAIN aux.calls : par.aligndom => AlignedAtCall(par, aux.calls[k])
 CInv_OneCall == OneCall(par, St)
